@@ -628,6 +628,17 @@ func (p NewChannelReqPayload) MarshalBinary() ([]byte, error) {
 		freq = freq / 2
 	}
 
+	// Values >= 1.2GHz / 100 are decoded using the 200Hz stepping. Therefore
+	// frequencies between 1.2GHz and 2.4GHz and 2.4GHz frequencies which are
+	// not a multiple of 200Hz can not be encoded without decoding to a
+	// different frequency.
+	if p.Freq >= 1200000000 && p.Freq < 2400000000 {
+		return b, errors.New("lorawan: Freq between 1.2GHz and 2.4GHz can not be encoded")
+	}
+	if p.Freq >= 2400000000 && p.Freq%200 != 0 {
+		return b, errors.New("lorawan: Freq must be a multiple of 200 for 2.4GHz frequencies")
+	}
+
 	if freq/100 >= 16777216 { // 2^24
 		return b, errors.New("lorawan: max value of Freq is 2^24 - 1")
 	}
